@@ -35,6 +35,7 @@ def _product(a: str, b: str):
 
 def run(ctx):
     repo = ctx.repo
+    _pow_carries_phase(ctx, repo)
     ctx.decided += [
         'C14.a Pauli.third / relative_index / phased_pauli_product, MutablePauliString._imul_atom_helper and the dense per-term phase '
         'function equal the Pauli group multiplication table (exhaustive over the finite domain)',
@@ -790,3 +791,37 @@ def _list_multiplication_order(ctx, repo, left_sign):
             ctx.ob('C14.m', f'{mps.qual}._imul_helper:{label}:{side}', ok, '' if ok else
                    f'{side}-multiplying S by the collection {label} must give {" ".join(want)}; the factors are applied as {" ".join(me.word)} '
                    '(two anticommuting factors on one qubit then come out with the wrong sign)', mps.mod.rel, fn.lineno)
+
+
+def _pow_carries_phase(ctx, repo):
+    """C14.m - PauliString.__pow__: every result computed for a unit-modulus coefficient uses the phase of that coefficient."""
+    from ..flow import PathWalker
+    ctx.decided.append('C14.m PauliString.__pow__: after the coefficient has been split into modulus and phase, every return that is not a refusal depends on the phase (the one-qubit shortcut '
+                       'as well as the phasor)')
+    ctx.rule('C14.m', 'the phase is raised to the power too: in PauliString.__pow__, on every path after `r, phase = cmath.polar(self.coefficient)` each returned value other than '
+             'NotImplemented / self depends on `phase`, or sits under a test that the phase is zero - (c P)**t = c**t P**t', floor=2, style='TNT')
+    ci = repo.cls('cirq.ops.pauli_string.PauliString')
+    fn = ci.methods.get('__pow__')
+    if fn is None:
+        raise AnalysisError('PauliString.__pow__ vanished')
+    split = [a for a in ast.walk(fn) if isinstance(a, ast.Assign) and isinstance(a.targets[0], ast.Tuple) and isinstance(a.value, ast.Call) and (call_name(a.value) or '').endswith('polar')]
+    if not split or len(split[0].targets[0].elts) != 2 or not isinstance(split[0].targets[0].elts[1], ast.Name):
+        raise AnalysisError('PauliString.__pow__: the polar split of the coefficient vanished')
+    ph = split[0].targets[0].elts[1].id
+    par = ci.mod.parents()
+    from ..flow import dominating_atoms, name_deps
+    dep = name_deps(fn, {ph: {'PHASE'}})
+    k = 0
+    for r in [x for x in ast.walk(fn) if isinstance(x, ast.Return) and x.value is not None and x.lineno > split[0].lineno]:
+        txt = ast.unparse(r.value)
+        if txt in ('NotImplemented', 'self'):
+            continue
+        k += 1
+        uses = any(isinstance(x, ast.Name) and 'PHASE' in dep.get(x.id, set()) for x in ast.walk(r.value))
+        zero_guard = any(pol and isinstance(a, ast.Compare) and isinstance(a.left, ast.Name) and a.left.id == ph and isinstance(a.ops[0], ast.Eq)
+                         and isinstance(a.comparators[0], ast.Constant) and a.comparators[0].value == 0 for a, pol in dominating_atoms(par, r, fn))
+        ok = uses or zero_guard
+        ctx.ob('C14.m', f'{ci.qual}.__pow__:return#{k}', ok, '' if ok else
+               f'`return {txt[:70]}` ignores `{ph}`, the phase of the coefficient: (-X)**3 comes out as X, (1j*X)**2 as the identity', ci.mod.rel, r.lineno)
+    if k == 0:
+        raise AnalysisError('PauliString.__pow__: no return after the polar split')
